@@ -86,11 +86,28 @@ def run_property(prop, tier, seed):
             report['structure_errors'].append('planted: %r\n%s' % (e, traceback.format_exc()[-800:]))
     verify.discharge(allobl, budget=budget)
     bounded_results = []
-    if hasattr(mod, 'bounded_checks'):
-        try:
-            bounded_results = mod.bounded_checks(reg, tier, seed)
-        except Exception as e:
-            report['structure_errors'].append('bounded_checks: %r\n%s' % (e, traceback.format_exc()[-800:]))
+    from . import guard
+    limit = 900 if tier == 'quick' else 5400
+    try:
+        with guard.time_limit(limit):
+            if hasattr(mod, 'bounded_checks'):
+                try:
+                    bounded_results = mod.bounded_checks(reg, tier, seed)
+                except Exception as e:
+                    report['structure_errors'].append('bounded_checks: %r\n%s' % (e, traceback.format_exc()[-800:]))
+            if getattr(mod, 'CROSSCHECK', None):
+                try:
+                    from . import crosscheck
+                    gens = mod.crosscheck_gens(reg) if hasattr(mod, 'crosscheck_gens') else None
+                    bounded_results = list(bounded_results) + [crosscheck.crosscheck(reg, list(reg.contracts.values()), mod.CROSSCHECK, tier, seed, gens=gens)]
+                except Exception as e:
+                    report['structure_errors'].append('crosscheck: %r\n%s' % (e, traceback.format_exc()[-800:]))
+    except guard.NativeTimeout:
+        bounded_results = list(bounded_results) + [{
+            'name': 'native bounded checks (watchdog)', 'bounded': True, 'bound': '%d s' % limit, 'cases': 0,
+            'violations': [{'what': 'the native sweep of the real code did not finish within %d s (it takes well under a tenth of that '
+                                    'on the reference tree): the code under test does not terminate on a swept input' % limit,
+                            'where': traceback.format_exc()[-600:]}]}]
     report['obls'] = allobl
     report['planted'] = planted
     report['audit_fail'] = audit_fail
@@ -133,6 +150,14 @@ def summarise(prop, tier, seed, rep):
                 undecided[k] = obs
         elif 'undecided' in st:
             undecided[k] = [o for o in lst if verify.status(o) == 'undecided']
+    if os.environ.get('PYVC_DUMP_FAILED'):
+        dd = os.environ['PYVC_DUMP_FAILED']
+        os.makedirs(dd, exist_ok=True)
+        for k, lst in failed.items():
+            for oi, o in enumerate(lst[:3]):
+                with open(os.path.join(dd, '%s__%d.smt2' % (k.replace('/', '__'), oi)), 'w') as f:
+                    f.write('; path %s\n' % o.path)
+                    f.write(smt.to_smt2(list(o.assumptions) + [z3.Not(o.goal)]))
     vac = []
     for o in covers:
         if o.clause == 'vacuity.pre-satisfiable' and verify.status(o) == 'dead':
@@ -249,12 +274,23 @@ def main(argv=None):
         status = 3
     elif undecided:
         status = 2
+    for b in sorted(set(rep['bounded'])):
+        if 'invariant' in b:
+            lines.append('NOTE: %s bounded fallback: %s' % (prop, b[:200]))
     for e in rep['structure_errors']:
         lines.append('STRUCTURE: %s %s' % (prop, e.split('\n')[0]))
     for v in vac:
         lines.append('STRUCTURE: %s vacuity: %s' % (prop, v))
     for k in sorted(undecided):
         lines.append('UNDECIDED: %s/%s (%d paths) budget=%ss' % (prop, k, len(undecided[k]), rep['budget']))
+        if os.environ.get('PYVC_DUMP_UNDECIDED'):
+            os.makedirs(os.environ['PYVC_DUMP_UNDECIDED'], exist_ok=True)
+            for oi, o in enumerate(undecided[k]):
+                fn = os.path.join(os.environ['PYVC_DUMP_UNDECIDED'], '%s__%d.smt2' % (k.replace('/', '__'), oi))
+                with open(fn, 'w') as f:
+                    f.write('; path %s\n; trace %s\n' % (o.path, ' | '.join(str(t) for t in o.meta.get('trace', []))[:3000]))
+                    f.write(smt.to_smt2(list(o.assumptions) + [z3.Not(o.goal)]))
+                lines.append('  dumped %s (path %s)' % (fn, o.path))
     # ledger: clauses proved on the reference tree
     # the ledger pins contract clauses (not path-dependent side obligations such as no-escape.* or
     # call-site / bit-range conditions, whose presence depends on which paths exist)
